@@ -49,6 +49,10 @@ func zzUpdates() []zzUpd {
 		{"incrmove", func(gp *GenginePool) error { return zzExplored(func() error { return gp.UpdatePooledRulesIncremental(zzVRule("b", 2, "8", false)) }) }, map[string]int64{"a": 1, "b": 2, "c": 1}},
 		{"removefirst", func(gp *GenginePool) error { return gp.RemoveRules([]string{"a"}) }, map[string]int64{"b": 1, "c": 1}},
 		{"incrmix", func(gp *GenginePool) error { return zzExplored(func() error { return gp.UpdatePooledRulesIncremental(zzVText(2, false, "nbmc")) }) }, map[string]int64{"a": 1, "n": 2, "b": 2, "m": 2, "c": 2}},
+		{"removetwo", func(gp *GenginePool) error { return zzExplored(func() error { return gp.RemoveRules([]string{"a", "c"}) }) }, map[string]int64{"b": 1}},
+		{"removethree", func(gp *GenginePool) error {
+			return zzExplored(func() error { return gp.RemoveRules([]string{"c", "zz", "b", "a"}) })
+		}, map[string]int64{}},
 	}
 }
 
@@ -295,6 +299,9 @@ func %s() {
 		{"incrmove", []int{6}, "map[string]int64{\"a\": 1, \"b\": 2, \"c\": 1}"},
 		{"removefirst_incr", []int{7, 2}, "map[string]int64{\"b\": 2, \"c\": 1}"},
 		{"removefirst_incrmove", []int{7, 6}, "map[string]int64{\"b\": 2, \"c\": 1}"},
+		{"removetwo", []int{9}, "map[string]int64{\"b\": 1}"},
+		{"removethree", []int{10}, "map[string]int64{}"},
+		{"incradd_removetwo", []int{3, 9}, "map[string]int64{\"b\": 1, \"d\": 2}"},
 		{"incrmix", []int{8}, "map[string]int64{\"a\": 1, \"n\": 2, \"b\": 2, \"m\": 2, \"c\": 2}"},
 		{"remove_incrmix", []int{4, 8}, "map[string]int64{\"a\": 1, \"n\": 2, \"b\": 2, \"m\": 2, \"c\": 2}"},
 		{"incradd_incrmix", []int{3, 8}, "map[string]int64{\"a\": 1, \"n\": 2, \"b\": 2, \"m\": 2, \"c\": 2, \"d\": 2}"},
